@@ -586,7 +586,27 @@ def _invalidation_gaps(methods):
         if len(invs) < 2:
             continue
         D = set.intersection(*[mut[m] - {C} for m in invs])
-        if not D:
+        # evidence that C really is computed from D: some method fills C (stores a value / an item) and reads D while doing so
+        fillers = []
+        for n, f in methods.items():
+            if n in invs:
+                continue
+            fills = False
+            for s_ in ast.walk(f):
+                if isinstance(s_, ast.Assign):
+                    for t in s_.targets:
+                        if isinstance(t, ast.Attribute) and isinstance(t.value, ast.Name) and t.value.id == "self" and t.attr == C:
+                            fills = True
+                        if isinstance(t, ast.Subscript) and isinstance(t.value, ast.Attribute) and isinstance(t.value.value, ast.Name) \
+                                and t.value.value.id == "self" and t.value.attr == C:
+                            fills = True
+            if fills:
+                reads = set(x.attr for x in ast.walk(f) if isinstance(x, ast.Attribute) and isinstance(x.ctx, ast.Load)
+                            and isinstance(x.value, ast.Name) and x.value.id == "self")
+                if reads & D:
+                    fillers.append(n)
+                    D = D & reads
+        if not D or not fillers:
             continue
         for n in sorted(methods):
             if n not in invs and mut[n] & D:
@@ -606,7 +626,8 @@ def c16_r10(ctx):
         "class P:\n"
         "    def add(self, p):\n        self.plugins.append(p)\n        self._cache.clear()\n"
         "    def drop_class(self, c):\n        self.plugins = [p for p in self.plugins if not isinstance(p, c)]\n        self._cache.clear()\n"
-        "    def drop(self, p):\n        self.plugins.remove(p)\n")
+        "    def drop(self, p):\n        self.plugins.remove(p)\n"
+        "    def get(self, k):\n        if k not in self._cache:\n            self._cache[k] = [p for p in self.plugins if p.k == k]\n        return self._cache[k]\n")
     pm_ = dict((n.name, n) for n in probe.body[0].body)
     if [g[3] for g in _invalidation_gaps(pm_)] != ["drop"]:
         raise AnalysisError("C16-R10 detector does not match its own positive example")
